@@ -22,6 +22,10 @@ package main
 //        panic   — entries are logged, then the goroutine panics under tars.CheckPanic (flush, os.Exit); in half of them
 //                  the stack dump file cannot be created (argv[0] under /proc/self) and a slow writer keeps entries pending;
 //                  in a third of them 2-4 guarded goroutines panic 0..25 ms apart while a backlog is being flushed;
+//        sizes   — like late, with entries of exactly 1, 4095..4097, 65535..65537, 200 KiB and 1 MiB bytes (more in thorough)
+//                  through every logging entry point (Debugf/Info/Warnf/Error/Infof/WriteLog/Trace, text and JSON): one entry =
+//                  exactly one Write call with exactly its bytes; other modes also draw about 1 in 8 entries above 64 KiB
+//                  when their padding limit is 70000;
 //        rawonly — like late, but only WriteLog / Trace calls precede the flush;
 //        swap    — entries are queued behind a blocked writer, every logger gets a new writer (SetWriter), more entries are
 //                  logged, then the flush: each entry must reach the writer installed when its logging call was made;
@@ -107,6 +111,8 @@ type c20Scenario struct {
 	Life     int  `json:"life,omitempty"`
 	// Callers >= 2: that many goroutines call FlushLogger concurrently (modes forced, stress, late, rawonly)
 	Callers  int  `json:"callers,omitempty"`
+	// mode sizes: the payload of entry n has exactly Sizes[n % len(Sizes)] bytes and goes through entry point (n/len(Sizes)+g) % 7
+	Sizes    []int `json:"sizes,omitempty"`
 	Kind     int  `json:"kind,omitempty"`
 	InFilter bool `json:"in_filter,omitempty"`
 }
@@ -197,9 +203,25 @@ func c20Shape(sc *c20Scenario, g, n int) (w, api int, pad string) {
 			pl = sc.Pad
 		}
 	}
+	if k := len(sc.Sizes); k > 0 { // exact payload sizes, every entry point in turn
+		api = (n/k + g) % 7
+		pl = sc.Sizes[n%k] - len(fmt.Sprintf("c20|%d|%d|%d||end", g, n, w))
+		if pl < 0 {
+			pl = 0
+		}
+	}
 	b := make([]byte, pl)
-	for i := range b {
-		b[i] = byte('a' + (h>>uint(i%48)+uint64(i))%26)
+	if pl <= 4096 {
+		for i := range b {
+			b[i] = byte('a' + (h>>uint(i%48)+uint64(i))%26)
+		}
+	} else { // large entries: a 61-byte pattern (61 is prime: no power-of-two boundary falls on a period) repeated by doubling copies
+		for i := 0; i < 61; i++ {
+			b[i] = byte('a' + (h>>uint(i%48)+uint64(i))%26)
+		}
+		for k := 61; k < pl; k *= 2 {
+			copy(b[k:], b[:k])
+		}
 	}
 	return w, api, string(b)
 }
@@ -316,6 +338,8 @@ func c20ExitMode(m string) bool { return m == "panic" || m == "invoke" || m == "
 // opened, SIGTERM with a complete configuration)
 var c20LifeKinds = []string{"init-panic-logpath", "init-panic-server-tls", "init-panic-client-tls", "init-panic-adapter-tls",
 	"init-panic-client-obj-tls", "config-unparsable-then-sigterm", "listen-fails", "configured-then-sigterm"}
+
+var c20HeldListener net.Listener
 
 // c20LifeConfig writes the server configuration of a lifecycle scenario; port is an occupied TCP port
 func c20LifeConfig(dir string, life int, port int) (string, error) {
@@ -579,7 +603,7 @@ func c20RunScenario(sc c20Scenario) c20ChildOut {
 		}
 		flush()
 		wg.Wait()
-	case "late", "rawonly":
+	case "late", "rawonly", "sizes":
 		for g := 0; g < sc.G; g++ {
 			wg.Add(1)
 			go logN(g, sc.N, false, &wg)
@@ -699,6 +723,7 @@ func c20RunScenario(sc c20Scenario) c20ChildOut {
 			out.Hook = "listen: " + lerr.Error()
 			return out
 		}
+		c20HeldListener = ln // keeps the port occupied: an unreferenced listener is closed by its finalizer at the next GC
 		cfgPath, cerr := c20LifeConfig(sc.Dir, life, ln.Addr().(*net.TCPAddr).Port)
 		if cerr != nil {
 			out.Hook = "config: " + cerr.Error()
@@ -1086,7 +1111,8 @@ func c20IsTiming(sig string) bool {
 
 func c20SmallBacklog(sc c20Scenario) bool {
 	// at most ~130 sleeping Writes (a millisecond or two each), or a few thousand immediate ones
-	return sc.Mode != "fullq" && (sc.Delay == 0 || sc.G*(sc.N+sc.LastN+1) <= 140)
+	// (mode sizes moves tens of megabytes through JSON encoding and the recording writers: a timer return is not judged there)
+	return sc.Mode != "fullq" && sc.Mode != "sizes" && (sc.Delay == 0 || sc.G*(sc.N+sc.LastN+1) <= 140)
 }
 
 // c20Run runs one scenario; a failure that depends on a time limit counts only when it reproduces three times in a row.
@@ -1186,7 +1212,7 @@ func c20Gen(tier string, rng *rand.Rand) []c20Case {
 	lifeNo := 0
 	mk := func(mode string) c20Case {
 		sc := c20Scenario{Mode: mode, Seed: rng.Int63n(1 << 40), Procs: procs[rng.Intn(4)], W: 1 + rng.Intn(4), JSON: rng.Intn(4) == 0}
-		sc.Pad = []int{0, 8, 64, 600, 5000}[rng.Intn(5)]
+		sc.Pad = []int{0, 8, 64, 600, 5000, 70000}[rng.Intn(6)] // 70000: about one entry in eight is larger than 64 KiB
 		switch mode {
 		case "forced":
 			sc.G = 1 + rng.Intn(6)
@@ -1256,6 +1282,16 @@ func c20Gen(tier string, rng *rand.Rand) []c20Case {
 			sc.N = 5 + rng.Intn(20)
 			sc.Delay = []int{0, 50, 50}[rng.Intn(3)]
 			sc.Last = []int{0, 3000}[rng.Intn(2)] // request timeout: with and without the deferred cancel
+		case "sizes":
+			// entry sizes around the boundaries a writer / buffer may have, through every logging entry point
+			sc.Sizes = []int{1, 4095, 4096, 4097, 65535, 65536, 65537, 200 << 10, 1 << 20}
+			if tier == "thorough" {
+				sc.Sizes = append(sc.Sizes, 16383, 16384, 16385, 131071, 131072, 131073, 3<<20+1, 8<<20)
+			}
+			sc.G = 1 + rng.Intn(2)
+			sc.N = 7 * len(sc.Sizes)
+			sc.Pad = 0
+			sc.Delay = 0
 		case "rawonly":
 			sc.G = 1 + rng.Intn(4)
 			sc.N = 1 + rng.Intn(20)
@@ -1279,13 +1315,13 @@ func c20Gen(tier string, rng *rand.Rand) []c20Case {
 		}
 		return c20Case{Sc: sc, Expect: true}
 	}
-	counts := map[string]int{"forced": 200, "stress": 120, "late": 40, "fullq": 4, "quiesce": 12, "panic": 32, "second": 4, "runexit": 8, "rawonly": 4, "swap": 16, "invoke": 16, "clientcall": 16, "lifecycle": 16}
+	counts := map[string]int{"forced": 200, "stress": 120, "late": 40, "fullq": 4, "quiesce": 12, "panic": 32, "second": 4, "runexit": 8, "rawonly": 4, "swap": 16, "invoke": 16, "clientcall": 16, "lifecycle": 16, "sizes": 6}
 	if tier == "thorough" {
-		counts = map[string]int{"forced": 3000, "stress": 2000, "late": 600, "fullq": 30, "quiesce": 150, "panic": 400, "second": 20, "runexit": 100, "rawonly": 40, "swap": 200, "invoke": 128, "clientcall": 64, "lifecycle": 160}
+		counts = map[string]int{"forced": 3000, "stress": 2000, "late": 600, "fullq": 30, "quiesce": 150, "panic": 400, "second": 20, "runexit": 100, "rawonly": 40, "swap": 200, "invoke": 128, "clientcall": 64, "lifecycle": 160, "sizes": 16}
 	}
 	// the smallest forced case first: one goroutine, one entry inside the window
 	cs = append(cs, c20Case{Sc: c20Scenario{Mode: "forced", G: 1, N: 0, Last: 1, LastN: 1, W: 1, Procs: 2, Seed: 1}, Expect: true})
-	for _, m := range []string{"forced", "stress", "late", "rawonly", "swap", "fullq", "quiesce", "panic", "invoke", "clientcall", "lifecycle", "runexit", "second"} {
+	for _, m := range []string{"forced", "stress", "late", "rawonly", "sizes", "swap", "fullq", "quiesce", "panic", "invoke", "clientcall", "lifecycle", "runexit", "second"} {
 		for i := 0; i < counts[m]; i++ {
 			cs = append(cs, mk(m))
 		}
